@@ -153,7 +153,7 @@ func oneRound(seed int64, db *badger.DB, round int) {
 	s.SetQueryEventDuration(2 * time.Millisecond)
 	// per-group memory touched without synchronisation from the group's callbacks only
 	mem := map[string]*int{}
-	for _, g := range []string{"test.r.a", "test.r.b", "grp.x", "grp.y", "shared", "test.sub.late.1", "test.sub.x.1"} {
+	for _, g := range []string{"test.r.a", "test.r.b", "grp.x", "grp.y", "shared", "test.sub.late.1", "test.sub.x.1", "hot"} {
 		mem[g] = new(int)
 	}
 	touch := func(g string) { TouchGroupMemory(mem, g) }
@@ -376,6 +376,22 @@ func oneRound(seed int64, db *badger.DB, round int) {
 				}
 			}
 		})
+	}
+	// a hot group: two goroutines submit a few hundred callbacks each to one group as fast as they can, so that
+	// the group's work item lives through long runs of callbacks while new ones keep arriving
+	if round%3 == 1 {
+		for k := 0; k < 2; k++ {
+			goer(func(r *rand.Rand) {
+				for i := 0; i < 400; i++ {
+					select {
+					case <-stop:
+						return
+					default:
+					}
+					s.WithGroup("hot", func(*res.Service) { touch("hot") })
+				}
+			})
+		}
 	}
 	// API calls
 	goer(func(r *rand.Rand) {
